@@ -9,3 +9,5 @@ open IrVerif.Scope
 #print axioms C03_roundtrip_decorated
 #print axioms C03_pure_decorated
 #print axioms C03_pure_ext
+#print axioms C03_pure_sites
+#print axioms C03_pure_frame
